@@ -96,6 +96,8 @@ def main():
         grid += [(2, 9, 3), (3, 0, 3), (5, 9, 1), (8, 5, 1), (16, 9, 1), (16, 20, 1)]
     n = 0
     for (P, J, R) in grid:
+        if len(c.violations) >= 6:
+            break           # the tree is broken: further runs would each cost their full time-out
         for s in range(seeds):
             n += 1
             seed = c.seed * 1000 + n
